@@ -156,7 +156,7 @@ Definition chk_add_link (idx : N) (s : ws cks) : result (ws cks) := Ok s.
 Definition chk_run (nzf : bool) (T : descs) : result (ws cks) :=
   walk_list (chk_handlers nzf) chk_add_link T (mkWs regs0 (mkCk SNil 0)).
 
-(* the side condition of the theorem; [ok_c08_nz] additionally admits delayed
+(* the side condition of the theorem; [ok_c08_nz] additionally accepts delayed
    replications whose body changes the compile-time registers in the repeatable
    way, for coders whose replication factors are never 0 *)
 Definition ok_c08 (T : descs) : bool := is_ok (chk_run false T).
